@@ -7,6 +7,7 @@ It handles all the details of formatting, import registration, and docstring gen
 for these constructs.
 """
 
+import json
 from typing import List, Tuple
 
 from pyopenapi_gen.context.render_context import RenderContext
@@ -211,7 +212,7 @@ class PythonConstructRenderer:
         # Write Enum members
         for member_name, value in values:
             if base_type == "str":
-                writer.write_line(f'{member_name} = "{value}"')
+                writer.write_line(f"{member_name} = {json.dumps(value, ensure_ascii=False)}")
             else:  # int
                 writer.write_line(f"{member_name} = {value}")
 
